@@ -93,19 +93,38 @@ pub struct Router;
 /// waits, so a reader that takes a second read guard in such a state — through code the hooks
 /// do not announce — blocks for good and the hang watchdog fires.
 pub static STRETCH_READERS_US: std::sync::atomic::AtomicU32 = std::sync::atomic::AtomicU32::new(0);
+/// with this set, a stretched reader goes on as soon as some thread has announced a write-lock
+/// request that has not been granted yet (a writer is queued), or after the stretch time
+pub static STRETCH_UNTIL_WRITER: std::sync::atomic::AtomicBool = std::sync::atomic::AtomicBool::new(false);
+static WRITERS_WAITING: std::sync::atomic::AtomicI32 = std::sync::atomic::AtomicI32::new(0);
 
 impl Observer for Router {
     fn on_event(&self, ev: &Event) {
         if matches!(ev, Event::LockWillAcquire { .. } | Event::LockAcquired { .. } | Event::LockReleased { .. }) {
             crate::props::c09_locks::record(ev);
-            if let Event::LockAcquired { write: false, .. } = ev {
-                let us = STRETCH_READERS_US.load(std::sync::atomic::Ordering::Relaxed);
-                if us > 0 {
-                    let t = std::time::Instant::now();
-                    while t.elapsed().as_micros() < us as u128 {
-                        std::hint::spin_loop();
+            use std::sync::atomic::Ordering::Relaxed;
+            match ev {
+                Event::LockWillAcquire { write: true, .. } => {
+                    WRITERS_WAITING.fetch_add(1, Relaxed);
+                }
+                Event::LockAcquired { write: true, .. } => {
+                    WRITERS_WAITING.fetch_sub(1, Relaxed);
+                }
+                Event::LockAcquired { write: false, .. } => {
+                    let us = STRETCH_READERS_US.load(Relaxed);
+                    if us > 0 {
+                        // plain stretch, or (UNTIL_WRITER) only until some writer is waiting for a lock
+                        let until_writer = STRETCH_UNTIL_WRITER.load(Relaxed);
+                        let t = std::time::Instant::now();
+                        while t.elapsed().as_micros() < us as u128 {
+                            if until_writer && WRITERS_WAITING.load(Relaxed) > 0 {
+                                break;
+                            }
+                            std::hint::spin_loop();
+                        }
                     }
                 }
+                _ => {}
             }
             return;
         }
